@@ -3,6 +3,7 @@ judge Trace_Region."""
 import contextlib
 import io
 import json
+import random
 
 from .. import core
 
@@ -83,7 +84,84 @@ def execute(db, q):
     return [f.id for f in it]
 
 
-def gen_queries(rng, coords, n_region, n_limit, seqids):
+def stored(db):
+    """the stored features as the specification's records: plain SQL on the handle's own connection (what a query has to be exact about)"""
+    return [{"id": r[0], "seqid": r[1], "s": r[2], "e": r[3], "strand": r[4], "ftype": r[5]}
+            for r in db.conn.execute("SELECT id, seqid, start, end, strand, featuretype FROM features ORDER BY rowid").fetchall()]
+
+
+def line_of(f):
+    return "%s\tsrc\t%s\t%d\t%d\t.\t%s\t.\tID=%s;Parent=ROOT" % (f["seqid"], f["ftype"], f["s"], f["e"], f["strand"], f["id"])
+
+
+def history(ctx, rng, coords, k, path):
+    """D3: ONE FeatureDB handle answers queries, is changed (update with features beyond every earlier extent / in other bins / on a new seqid; delete; a stored
+    feature fetched, moved and written back with merge_strategy='replace'; a database created through a transform that moves features), and answers again.
+    After every change the stored rows are read back and the answers of the same handle are judged against them.  Returns (dbs, events)."""
+    import gffutils
+    near = [c + rng.randint(-2, 2) for c in coords if c > 3]
+
+    def rand_feats(n, tag, lo=1, hi=2 ** 30):
+        out = []
+        for i in range(n):
+            a = rng.choice(near) if rng.random() < 0.6 else rng.randrange(lo, hi)
+            a = max(lo, min(a, hi))
+            b = min(a + int(rng.expovariate(1 / 150000.0)), 2 ** 31 - 2)
+            out.append({"id": "%s%d" % (tag, i), "seqid": rng.choice(["c1", "c1", "c2"]), "s": a, "e": b, "strand": rng.choice(STRANDS), "ftype": rng.choice(TYPES)})
+        return out
+    shift = rng.choice([0, 0, SIZES[0], SIZES[1], 3 * SIZES[2] + 5])
+    base = rand_feats(25, "a", hi=2 ** 27)
+    lines = ["zz\t.\troot\t1\t1\t.\t.\t.\tID=ROOT"] + [line_of(f) for f in base]
+
+    def mover(f):
+        if shift and f.featuretype != "root" and int(f.attributes["ID"][0][1:]) % 3 == 0:
+            f.start += shift
+            f.end += shift
+        return f
+    with contextlib.redirect_stderr(io.StringIO()):
+        db = gffutils.create_db("\n".join(lines) + "\n", path, from_string=True, transform=mover, force=True)
+    dbs, events = [], []
+
+    def ask(n_region, n_limit):
+        snap = stored(db)
+        dbs.append(snap)
+        qc = sorted(set([f["s"] for f in snap] + [f["e"] for f in snap] + [f["s"] - 1 for f in snap if f["s"] > 1] + [f["e"] + 1 for f in snap] + coords[::7]))
+        seqids = sorted(set(f["seqid"] for f in snap if f["seqid"] != "zz"))
+        for q in gen_queries(rng, qc, n_region, n_limit, seqids, callers=["all_features", "features_of_type", "children"]):
+            q["stage"] = len(dbs)
+            events.append({"db": len(dbs), "q": q, "ids": execute(db, q)})
+        # wide windows that reach beyond everything stored (one per seqid and mode)
+        for sq in seqids:
+            for w in (True, False):
+                q = dict(api="region", seqid=sq, s=1, e=2 ** 31 - 2, within=w, strand="", form="kwargs", caller="region", anyType=True, ftypes=[], ftform="none", stage=len(dbs))
+                events.append({"db": len(dbs), "q": q, "ids": execute(db, q)})
+    ask(40, 25)
+    steps = rng.sample(["update_beyond", "update_seqid", "delete", "move_replace", "update_beyond"], 3)
+    for n, st in enumerate(steps):
+        with contextlib.redirect_stderr(io.StringIO()):
+            if st == "update_beyond":
+                top = max(f["e"] for f in stored(db))
+                new = rand_feats(6, "b%d_" % n, lo=min(top + 1, 2 ** 30), hi=min(top + 2 ** 27, 2 ** 30 + 2 ** 28))
+                db.update("\n".join(line_of(f) for f in new) + "\n", from_string=True, make_backup=False)
+            elif st == "update_seqid":
+                new = [dict(f, seqid="c3") for f in rand_feats(5, "s%d_" % n)]
+                db.update("\n".join(line_of(f) for f in new) + "\n", from_string=True, make_backup=False)
+            elif st == "delete":
+                ids = [f["id"] for f in stored(db) if f["id"] != "ROOT"]
+                db.delete(rng.sample(ids, min(5, len(ids))), make_backup=False)
+            else:
+                ids = [f["id"] for f in stored(db) if f["id"] != "ROOT"]
+                f = db[rng.choice(ids)]
+                d = rng.choice([SIZES[0], SIZES[1] + 17, 5 * SIZES[2]])
+                f.start += d
+                f.end += d
+                db.update([f], merge_strategy="replace", make_backup=False)
+        ask(30, 20)
+    db.conn.close()
+    return dbs, events, [shift] + steps
+
+
+def gen_queries(rng, coords, n_region, n_limit, seqids, callers=("all_features", "features_of_type", "children", "parents")):
     qs = []
 
     def pick_types():
@@ -113,7 +191,7 @@ def gen_queries(rng, coords, n_region, n_limit, seqids):
         qs.append(q)
     for _ in range(n_limit):
         a, b = sorted((rng.choice(coords), rng.choice(coords)))
-        caller = rng.choice(["all_features", "features_of_type", "children", "parents"])
+        caller = rng.choice(list(callers))
         q = dict(api="limit", seqid=rng.choice(seqids), s=a, e=b, within=rng.random() < 0.5,
                  strand="", form=rng.choice(["tuple", "string"]), caller=caller)
         q.update(pick_types())
@@ -126,7 +204,7 @@ def gen_queries(rng, coords, n_region, n_limit, seqids):
 
 
 def nontrivial(q):
-    if q["s"] == 0 or q["e"] == 0:
+    if q.get("stage", 0) >= 2 or q["s"] == 0 or q["e"] == 0:
         return True
     for x in (q["s"], q["e"]):
         if x >= MAXC - 2:
@@ -167,7 +245,8 @@ def run(ctx):
     ctx.rule = ("Features = all pairs of boundary coordinates (bin multiples +-1, 1, 2, 2**29+-1, 2**29+2**17) on two seqids with mixed strands/types; "
                 "queries = seeded choices of (start,end) from the same set x {overlap, within} x API form (tuple, 'seqid:s-e', 'seqid:s-e:strand', Feature, "
                 "kwargs with seqid or one bound omitted; limit= of all_features/features_of_type/children/parents as tuple or string) x strand x featuretype; "
-                "plus random databases with coordinates anywhere below 2**31. Non-trivial: a query bound within 2 of a bin boundary or >= 2**29-2, or one-sided; "
+                "plus random databases with coordinates anywhere below 2**31; plus histories on ONE handle (queries, then update beyond every earlier extent / on a new seqid, "
+                "delete, move-and-replace of a stored feature, creation through a coordinate-moving transform, then the queries again - judged against the rows stored at that moment). Non-trivial: a query after a change of the handle's database, or a query bound within 2 of a bin boundary or >= 2**29-2, or one-sided; "
                 "distinct by the full query.")
     mc = ctx.tlc("MC_Region", MC_CFG, expect="inv", label="pointwise soundness/completeness on boundary coordinates")
     if not mc.ok:
@@ -218,6 +297,22 @@ def run(ctx):
         qc = sorted(set([f["s"] for f in rf] + [f["e"] for f in rf] + [f["s"] - 1 for f in rf if f["s"] > 1] + [f["e"] + 1 for f in rf] + coords))
         for q in gen_queries(rng, qc, 400, 250, ["c1", "c2"]):
             events.append({"db": len(dbs), "q": q, "ids": execute(rdb, q)})
+    # --- D3: histories on one handle (file databases and :memory:)
+    nh = 0
+    for k in range(60 if thorough else 12):
+        path = ctx.path("c06_h%d.db" % k) if k % 2 == 0 else ":memory:"
+        hseed = rng.randrange(2 ** 30)
+        hd, he, steps = history(ctx, random.Random(hseed), coords, k, path)
+        off = len(dbs)
+        dbs += hd
+        for e in he:
+            e["db"] += off
+            e["q"]["history"] = steps
+            e["q"]["hseed"] = hseed
+            e["q"]["hfile"] = k % 2 == 0
+        events += he
+        nh += 1
+    ctx.extra["handle_histories"] = nh
     rej = judge(ctx, dbs, events, "all")
     report(ctx, dbs, events, rej)
     for e in events:
@@ -237,6 +332,9 @@ def replay(ctx, rec):
     c = rec["case"]
     if "q" not in c:
         return True
+    if "hseed" in c["q"]:       # an event of a handle history: the whole history is run again from its seed
+        hd, he, _ = history(ctx, random.Random(c["q"]["hseed"]), boundary_coords(), 0, ctx.path("replay_h.db") if c["q"]["hfile"] else ":memory:")
+        return any(cl != "drift" for _, cl in judge(ctx, hd, he, "replay"))
     feats = [f for f in c["feats"] if f["id"] not in ("ROOT", "LEAF")]
     db, allf = make_db(feats)
     ev = [{"db": 1, "q": c["q"], "ids": execute(db, c["q"])}]
